@@ -1317,10 +1317,12 @@ class Reaction(Object):
                 )
             else:
                 # Reset them with add_metabolites
-                mets_to_reset = {
-                    key: old_coefficients[model.metabolites.get_by_any(key)[0]]
-                    for key in metabolites_to_add.keys()
-                }
+                # A metabolite that was not part of the reaction before is reset
+                # to a coefficient of zero, i.e., removed again.
+                mets_to_reset = {}
+                for key in metabolites_to_add.keys():
+                    model_met = model.metabolites.get_by_id(str(key))
+                    mets_to_reset[model_met] = old_coefficients.get(model_met, 0)
 
                 context(
                     partial(
